@@ -4,3 +4,4 @@ import PasskeyVerif.Props.C10
 import PasskeyVerif.Props.C01
 import PasskeyVerif.Props.C12
 import PasskeyVerif.Props.C13
+import PasskeyVerif.Props.C04
